@@ -25,7 +25,7 @@ Class(line, bad) ==
    (*          its RefPath (loader.go resolve{Example,Link,SecurityScheme}Ref drop the location loadSingleElementFromURI returns; the other seven *)
    (*          resolvers keep it).  InternalizeRefs derives the component name from RefPath: for a document loaded from memory RefPath is nil    *)
    (*          and DefaultRefNameResolver panics; from a file the name is that of the referring document and the reference ends up elsewhere.    *)
-   ELSE IF c.shape \in {"wholefile_plain", "rootchild_whole"}
+   ELSE IF c.shape \in {"wholefile_plain", "rootchild_whole", "pctname_whole"}
            /\ (IF c.shape = "rootchild_whole" THEN c.u.slots[1].c.ch[1].kind ELSE c.kind) \in {"examples", "links", "securitySchemes"}
            /\ (\/ (bad = {"no_panic"} /\ c.entry \in {"data", "reader"})
                \/ ((c.shape = "rootchild_whole" \/ c.pos # "comp") /\ bad \subseteq {"validates_iff_original", "resolves_to_same_content", "reloads_without_external_refs"}))
